@@ -235,6 +235,23 @@ func (c *ctx) decodeSide(us []*universe.UStruct, perType int, reencode bool) {
 	var ks []*kept
 	for _, u := range us {
 		w := c.writerOf(u)
+		// boundary of the count checks: containers whose elements all take their smallest encoding
+		// (empty strings / lists / sets / maps, zero structs), nothing but STOP bytes behind them
+		for _, n := range []int{1, 2, 3, 9} {
+			gm := c.cfg()
+			gm.minimal, gm.minLen, gm.maxLen, gm.bigStr = true, n, n, false
+			if tv := c.mkMessage(w, gm); tv != nil {
+				c.h.opDec(u, tv.ser(nil), c.dest(u, g), false)
+				// … and each container field alone in its message: the container then ends at the
+				// last byte but one, which is where a count check is tight
+				for _, f := range tv.Fields {
+					if f.V.T == tMAP || f.V.T == tSET || f.V.T == tLIST {
+						one := &TV{T: tSTRUCT, Fields: []TField{f}}
+						c.h.opDec(u, one.ser(nil), c.dest(u, g), false)
+					}
+				}
+			}
+		}
 		for i := 0; i < perType; i++ {
 			tv := c.mkMessage(w, g)
 			if tv == nil {
